@@ -359,6 +359,7 @@ INITIALISERS = [
     ("tensorly.decomposition._cp.initialize_cp", "init", ("non_negative",)),
     ("tensorly.decomposition._constrained_cp.initialize_constrained_parafac", "init", ()),
     ("tensorly.decomposition._tucker.initialize_tucker", "init", ("non_negative",)),
+    ("tensorly.decomposition._parafac2.initialize_decomposition", "init", ()),
 ]
 TRANSFORMERS = {"proximal_operator", "svd_interface", "random_cp", "random_sample", "random_tucker", "qr", "svd", "clip", "make_svd_non_negative", "hals_nnls", "fista", "active_set_nnls", "sign", "round", "where", "maximum", "minimum", "tucker_normalize", "soft_thresholding", "simplex_prox", "normalized_sparsity_prox", "hard_thresholding"}
 ABS_LIKE = {"abs", "absolute"}
